@@ -461,7 +461,9 @@ def isTruthy (v : Value) : Bool :=
 
 def indexOf (v : Value) (p : P) : Except RErr Int :=
   if v.type == .Int then .ok v.intValue
-  else if v.type == .Long then .ok (wrap32 v.longValue)
+  else if v.type == .Long then
+    -- a long beyond the int range is out of bounds for every array: saturated, not truncated
+    .ok (if v.longValue > 2147483647 then 2147483647 else if v.longValue < 0 then -1 else v.longValue)
   else if v.type == .Bit then .ok v.bitValue
   else if v.type == .Float then .ok (floatToInt32 v.floatValue)
   else .error (.runtime p.line p.col "index must be numeric")
@@ -677,6 +679,7 @@ def applyBuiltin (name : String) (argv : List Value) (p : P) : EM Unit := do
     else if name == "x" then simGate (.x q)
     else if name == "y" then simGate (.y q)
     else if name == "z" then simGate (.z q)
+    else if !a1.floatValue.isFinite then rtErr p "rotation angle must be finite"
     else if name == "rx" then simGate (.rx q a1.floatValue)
     else if name == "ry" then simGate (.ry q a1.floatValue)
     else simGate (.rz q a1.floatValue)
